@@ -275,19 +275,15 @@ func (c *Client) BlockchainInfo(ctx context.Context, minHeight, maxHeight int64)
 		}
 	}
 
-	// Update the light client if we're behind.
-	if len(res.BlockMetas) > 0 {
-		lastHeight := res.BlockMetas[len(res.BlockMetas)-1].Header.Height
-		if _, err := c.updateLightClientIfNeededTo(ctx, &lastHeight); err != nil {
-			return nil, err
-		}
-	}
-
-	// Verify each of the BlockMetas.
+	// Verify each of the BlockMetas against the trusted header of its height,
+	// updating the light client where necessary. (The metas come in descending
+	// order of height, and with skipping verification the heights in between two
+	// trusted headers are not in the trusted store.)
 	for _, meta := range res.BlockMetas {
-		h, err := c.lc.TrustedLightBlock(meta.Header.Height)
+		height := meta.Header.Height
+		h, err := c.updateLightClientIfNeededTo(ctx, &height)
 		if err != nil {
-			return nil, fmt.Errorf("trusted header %d: %w", meta.Header.Height, err)
+			return nil, fmt.Errorf("trusted header %d: %w", height, err)
 		}
 		if bmH, tH := meta.Header.Hash(), h.Hash(); !bytes.Equal(bmH, tH) {
 			return nil, fmt.Errorf("block meta header %X does not match with trusted header %X",
